@@ -33,20 +33,29 @@ def _round(call):
     return '.' + kw['round'].value
 
 
-def tr(n):
+def tr(n, env=None):
+    env = env or {}
+    if isinstance(n, ast.Name) and n.id in env:
+        return env[n.id]
     p = _path(n)
+    if p == 'V1':
+        return '.one'
+    if isinstance(n, ast.BinOp) and isinstance(n.op, ast.Sub):
+        return '(.minus %s %s)' % (tr(n.left, env), tr(n.right, env))
+    if isinstance(n, ast.IfExp) and isinstance(n.test, ast.Compare) and len(n.test.ops) == 1 and isinstance(n.test.ops[0], ast.Lt):
+        return '(.iteLt %s %s %s %s)' % (tr(n.test.left, env), tr(n.test.comparators[0], env), tr(n.body, env), tr(n.orelse, env))
     if p in ATOMS:
         return ATOMS[p]
     if p in VOTES:
         return '.vote'
     if isinstance(n, ast.BinOp) and isinstance(n.op, ast.Mult):
-        return '(.times %s %s)' % (tr(n.left), tr(n.right))
+        return '(.times %s %s)' % (tr(n.left, env), tr(n.right, env))
     if isinstance(n, ast.BinOp) and isinstance(n.op, ast.Div):
-        return '(.over %s %s)' % (tr(n.left), tr(n.right))
+        return '(.over %s %s)' % (tr(n.left, env), tr(n.right, env))
     if isinstance(n, ast.Call) and _path(n.func) in ('V.mul', 'V.div') and len(n.args) == 2:
-        return '(.%s %s %s %s)' % (_path(n.func)[2:], _round(n), tr(n.args[0]), tr(n.args[1]))
+        return '(.%s %s %s %s)' % (_path(n.func)[2:], _round(n), tr(n.args[0], env), tr(n.args[1], env))
     if isinstance(n, ast.Call) and _path(n.func) == 'V.muldiv' and len(n.args) == 3:
-        return '(.muldiv %s %s %s %s)' % (_round(n), tr(n.args[0]), tr(n.args[1]), tr(n.args[2]))
+        return '(.muldiv %s %s %s %s)' % (_round(n), tr(n.args[0], env), tr(n.args[1], env), tr(n.args[2], env))
     raise TranslationError('not an expression of the accepted form: %s' % ast.dump(n)[:160])
 
 
@@ -77,13 +86,46 @@ def formulas(repo):
         if len(hits) != 1:
             raise TranslationError('%s: %d computed assignments to c.kf (expected the update of the elected candidates)' % (path, len(hits)))
         out[LEAN[r] + 'KfUpdate'] = (tr(hits[0].value), 'C06.kfUpdateProg')
+    # meek.py: how a keep factor shares a ballot's weight (kw_warren, kw_meekOpenSTV) and which of the two is used
+    path = os.path.join(repo, 'droop', 'rules', 'meek.py')
+    tree = ast.parse(open(path).read(), path)
+    for fname, lean in (('kw_warren', 'kwWarren'), ('kw_meekOpenSTV', 'kwMeek')):
+        fs_ = [n for n in ast.walk(tree) if isinstance(n, ast.FunctionDef) and n.name == fname]
+        if len(fs_) != 1 or [a.arg for a in fs_[0].args.args] != ['kf', 'weight']:
+            raise TranslationError('%s: %s(kf, weight) not found once' % (path, fname))
+        env = {'kf': '.kf', 'weight': '.weight'}
+        body = [st for st in fs_[0].body if not (isinstance(st, ast.Expr) and isinstance(st.value, ast.Constant))]
+        for st in body[:-1]:
+            if isinstance(st, ast.Assign) and len(st.targets) == 1 and isinstance(st.targets[0], ast.Name):
+                env[st.targets[0].id] = tr(st.value, env)
+            else:
+                raise TranslationError('%s: statement not accepted in %s: %s' % (path, fname, ast.dump(st)[:120]))
+        ret = body[-1]
+        if not (isinstance(ret, ast.Return) and isinstance(ret.value, ast.Tuple) and len(ret.value.elts) == 2):
+            raise TranslationError('%s: %s does not end in `return keep, weight`' % (path, fname))
+        out[lean] = ('(%s, %s)' % (tr(ret.value.elts[0], env), tr(ret.value.elts[1], env)), 'C06.%sProg' % lean, 'WEx × WEx')
+    sel = [n for n in ast.walk(tree) if isinstance(n, ast.Assign) and len(n.targets) == 1 and isinstance(n.targets[0], ast.Name)
+           and n.targets[0].id == 'kt']
+    ok = len(sel) == 1 and isinstance(sel[0].value, ast.IfExp) and _path(sel[0].value.test) == 'self.warren' \
+        and getattr(sel[0].value.body, 'id', None) == 'kw_warren' and getattr(sel[0].value.orelse, 'id', None) == 'kw_meekOpenSTV'
+    if not ok:
+        raise TranslationError('%s: `kt = kw_warren if self.warren else kw_meekOpenSTV` not found' % path)
+    # meek_prf.py: the share kept (B.2.a)
+    path = os.path.join(repo, 'droop', 'rules', 'meek_prf.py')
+    tree = ast.parse(open(path).read(), path)
+    hits = [n for n in ast.walk(tree) if isinstance(n, ast.Assign) and len(n.targets) == 1 and isinstance(n.targets[0], ast.Name)
+            and n.targets[0].id == 'keep_weight']
+    if len(hits) != 1:
+        raise TranslationError('%s: %d assignments to keep_weight' % (path, len(hits)))
+    out['kwPrf'] = (tr(hits[0].value), 'C06.kwPrfProg', 'WEx')
     return out
 
 
 def lean_file(fs):
     lines = ['import Props.C06Prog', 'namespace Gen', 'open Droop Droop.C06', '']
-    for name, (text, target) in sorted(fs.items()):
-        lines.append('def %s : WEx := %s' % (name, text))
+    for name, v in sorted(fs.items()):
+        text, target = v[0], v[1]
+        lines.append('def %s : %s := %s' % (name, v[2] if len(v) > 2 else 'WEx', text))
         lines.append('theorem %s_is_committed : %s = %s := by rfl' % (name, name, target))
         lines.append('#print axioms %s_is_committed' % name)
         lines.append('')
